@@ -131,7 +131,7 @@ def judge(case):
         out.label("bulk")
     for i, req in enumerate([["bulk-%d" % k, "EXECUTE", "PERMIT"] for k in range(bulk)] + case["reqs"]):
         prompt, e, a = req[:3]
-        if prompt == "@logic":
+        if prompt == "@logic" and e in LOGICS:         # (a generated free-text prompt may read "@logic" too: then it is an ordinary prompt)
             from operon_ai.topology.loops import GateLogic
             loop.gate_logic = getattr(GateLogic, e)
             logic = e
